@@ -7,6 +7,8 @@ BASE_NOTE = ('Trusted: TLC / SANY, the JSON bridge, harness projection + lexer +
              'pre-1.22 format of the shipped logs). Bounded: TLC is exhaustive only for the constants of the MC_*.cfg files; beyond them '
              'coverage is by seeded generation, each recorded execution validated by TLC against the specification.')
 C = {
+ 'C01': ('model_checking', 'TLA+ ArgSplit automaton (TLC round trip + exhaustive differential table vs the real splitter) and TLC-enumerated WlLine universe rendered by a printer model and decoded by the real parse.message',
+         'The splitter is transcribed as a TLA+ automaton; TLC proves Split(Join(args)) = args over all bounded argument lists and validates the transcription against the real function on every class string up to length 7/9. TLC enumerates dialect x decimal mark x queue x connection tag x direction x argument-class sequences; each is rendered with boundary values and samples and every decoded field compared; non-message lines (all classes, proper prefixes) must be rejected. Integer / fixed / text ranges are covered by classes and samples, not exhaustively.', '4 C01'),
  'C02': ('model_checking', 'TLA+ Session/ObjectTable spec: TLC invariants over all bounded well-formed histories + replay of model behaviours into the real tool + TLC trace validation of random histories',
          'TLC proves the attribution invariants on every well-formed history of the bounded model (ids {2,3[,4]} + a server-range id, <= 3 incarnations, <= 6/7 messages); every maximal behaviour of that model (sampled in quick) and hundreds of long random histories (all shipped interfaces, > 26 incarnations) are executed by the real tool and each recorded step is compared by TLC with Session!Step (target / argument / destroyed incarnation, labels on the output line, the table read through retrieve_object).', '4 C02'),
  'C03': ('model_checking', 'TLA+ ObjectTable lifetimes: TLC invariants/action properties with clocks + replay + TLC trace validation',
